@@ -310,6 +310,55 @@ def inline_function(repo, rel: str, qual: str, func: ast.FunctionDef, depth: int
     for node in ast.walk(new):
         if isinstance(node, (ast.FunctionDef, ast.AsyncFunctionDef)) and node is not new:
             node.body = inliner._block(node.body, names | _stored_names(node), 1)
+    # expression-level: a call of a one-statement helper (`return <expr>`) anywhere inside an expression is replaced by that
+    # expression when every argument is simple or its parameter is used at most once (no duplicated evaluation)
+    class Expand(ast.NodeTransformer):
+        def visit_Call(self, node: ast.Call) -> ast.AST:  # noqa: N802
+            self.generic_visit(node)
+            found = inliner._callee(node)  # pylint: disable=protected-access
+            if found is None:
+                return node
+            qual_name, target, drop_first = found
+            if qual_name == qual or (only is not None and qual_name.split(".")[-1] not in only):
+                return node
+            body = [st for st in target.body
+                    if not (isinstance(st, ast.Expr) and isinstance(st.value, ast.Constant) and isinstance(st.value.value, str))]
+            if len(body) != 1 or not isinstance(body[0], ast.Return) or body[0].value is None or target.decorator_list and any(
+                    not (isinstance(d, ast.Name) and d.id in ("staticmethod", "classmethod")) for d in target.decorator_list):
+                return node
+            args = target.args
+            if args.vararg or args.kwarg or args.posonlyargs or any(isinstance(a, ast.Starred) for a in node.args) \
+                    or any(k.arg is None for k in node.keywords):
+                return node
+            params = [a.arg for a in args.args]
+            subst: Dict[str, ast.AST] = {}
+            if drop_first:
+                if not params:
+                    return node
+                subst[params[0]] = node.func.value  # type: ignore[attr-defined]
+                params = params[1:]
+            if len(node.args) > len(params):
+                return node
+            binding = dict(zip(params, node.args))
+            for kw in node.keywords:
+                if kw.arg not in params or kw.arg in binding:
+                    return node
+                binding[kw.arg] = kw.value
+            defaults = dict(zip(params[len(params) - len(args.defaults):], args.defaults))
+            for name in params:
+                if name not in binding:
+                    if name not in defaults:
+                        return node
+                    binding[name] = defaults[name]
+            expr = body[0].value
+            for name, value in binding.items():
+                uses = sum(1 for n in ast.walk(expr) if isinstance(n, ast.Name) and n.id == name)
+                if not _simple(value) and uses > 1:
+                    return node
+            subst.update(binding)
+            inliner.inlined.append(qual_name)
+            return _Rename({}, subst).visit(clone(expr))
+    new = Expand().visit(new)
     ast.fix_missing_locations(new)
     link_parents(new, getattr(func, "_parent", None))
     return new, inliner.inlined
